@@ -824,24 +824,26 @@ func (interp *Interpreter) cfg(root *node, sc *scope, importPath, pkgName string
 						return
 					}
 					if (sc.global || sc.isRedeclared(dest)) && dest.ident != "_" {
+						shadow := false
 						if n.anc != nil && n.anc.anc != nil && (n.anc.anc.kind == forStmt7 || n.anc.anc.kind == rangeStmt) {
-							// check for redefine of for loop variables, which are now auto-defined in go1.22
-							init := n.anc.anc.child[0]
-							var fi *node // for ident
-							if n.anc.anc.kind == forStmt7 {
-								if init.kind == defineStmt && len(init.child) >= 2 && init.child[0].kind == identExpr {
-									fi = init.child[0]
-								}
-							} else { // range
-								fi = init
+							// The variables of a loop are defined again for each iteration at
+							// the start of the body (see above). The body is nevertheless a
+							// scope of its own: a variable defined there with the name of a
+							// loop variable is a new one, which shadows the loop variable.
+							nv := 1
+							if n.anc.anc.kind == rangeStmt {
+								nv = 2
 							}
-							if fi != nil && dest.ident == fi.ident {
-								n.gen = nop
-								break
+							for _, lv := range n.anc.child[:nv] {
+								if lv.ident == dest.ident {
+									shadow = true
+								}
 							}
 						}
-						// Do not overload existing symbols (defined in GTA) in global scope.
-						sym, _, _ = sc.lookup(dest.ident)
+						if !shadow {
+							// Do not overload existing symbols (defined in GTA) in global scope.
+							sym, _, _ = sc.lookup(dest.ident)
+						}
 					}
 					if sym == nil {
 						sym = &symbol{index: sc.add(dest.typ), kind: varSym, typ: dest.typ}
